@@ -1,20 +1,36 @@
 package hpool
 
 import (
+	"encoding/json"
 	"fmt"
+	"math/big"
+	"os"
 	"strings"
 	"sync"
+	"sync/atomic"
 	"testing"
+	"time"
 
+	"github.com/icon-project/goloop/chain/base"
+	"github.com/icon-project/goloop/common"
+	"github.com/icon-project/goloop/common/crypto"
 	"github.com/icon-project/goloop/common/db"
 	"github.com/icon-project/goloop/common/log"
 	"github.com/icon-project/goloop/common/txlocator"
+	"github.com/icon-project/goloop/consensus"
 	"github.com/icon-project/goloop/module"
 	"github.com/icon-project/goloop/service"
+	"github.com/icon-project/goloop/service/contract"
+	"github.com/icon-project/goloop/service/platform/basic"
+	"github.com/icon-project/goloop/service/scoredb"
+	"github.com/icon-project/goloop/service/state"
 	"github.com/icon-project/goloop/service/transaction"
+	"github.com/icon-project/goloop/service/txresult"
+	"github.com/icon-project/goloop/test"
 	"pgregory.net/rapid"
 
 	"verifharness/internal/ev"
+	"verifharness/internal/gen"
 )
 
 // C11: along any chain of blocks no transaction id is accepted twice (duplicate in the same
@@ -32,7 +48,7 @@ import (
 //                every tx passes service.CheckTxTimestamp; the model accepts iff no id repeats
 //                on the path/in the block and every ts is in (T-th, T+th].
 //   window     : service.CheckTxTimestamp / service.NewTimestampRange against the formula.
-//   transition : (c11tr_test.go) the same duplicate placements through chained
+//   transition : (second half of this file) the same duplicate placements through chained
 //                service.NewTransition with real validation.
 //   varyingThresholds : labelled experiment, never decides (see DESIGN C11).
 //
@@ -586,4 +602,536 @@ func TestC11(t *testing.T) {
 	t.Run("window", func(t *testing.T) {
 		ev.Check(t, 1500, 20000, func(rt *rapid.T) { c11Window(rt, rec) })
 	})
+}
+
+// ---------------------------------------------------------------------------------------------
+
+// Transition level of C11: the same histories (chains with forks, duplicates in the same block /
+// an unfinalized ancestor / a finalized ancestor / after a restart) are driven through the real
+// service.NewInitTransition / NewTransition / Execute / FinalizeTransition on a MapDB. The
+// transactions are harness-defined (c11PTx, modelled on the repository's test.Transaction:
+// signature-less, free), so the
+// only reasons for a validation failure are the ones C11 is about: the recorded ids
+// (ensureRecordTXIDs -> TXIDLogger.Add) and the timestamp window (validateTxs -> CheckTx).
+
+func init() {
+	// the repository's test transactions and db writers log through the global logger
+	log.GlobalLogger().SetLevel(log.FatalLevel)
+}
+
+type c11quietT struct{}
+
+func (c11quietT) Errorf(format string, args ...interface{}) {}
+func (c11quietT) Logf(format string, args ...interface{})   {}
+
+// c11PTx is a harness-defined transaction ("type":"c11"): free, signature-less, carries a
+// timestamp and a salt; when thMS > 0 its execution stores the chain's timestamp threshold
+// (milliseconds, the unit the chain score uses). Lists rebuild transactions from their bytes,
+// hence the registered factory.
+type c11PJSON struct {
+	Type      string          `json:"type"`
+	TimeStamp common.HexInt64 `json:"timestamp"`
+	Salt      string          `json:"salt"`
+	ThMS      int64           `json:"thMS,omitempty"`
+}
+
+type c11PTx struct {
+	j  c11PJSON
+	id []byte
+}
+
+func c11NewPTx(ts int64, salt string, thMS int64) transaction.Transaction {
+	c11RegisterFactory()
+	t := &c11PTx{j: c11PJSON{Type: "c11", TimeStamp: common.HexInt64{Value: ts}, Salt: salt, ThMS: thMS}}
+	t.id = crypto.SHA3Sum256(t.Bytes())
+	return transaction.Wrap(t)
+}
+
+var c11FactoryOnce sync.Once
+
+func c11RegisterFactory() {
+	c11FactoryOnce.Do(func() {
+		transaction.RegisterFactory(&transaction.Factory{
+			Priority: 4,
+			CheckJSON: func(jso map[string]interface{}) bool {
+				v, ok := jso["type"]
+				return ok && v == "c11"
+			},
+			ParseJSON: func(js []byte, jsm map[string]interface{}, raw bool) (transaction.Transaction, error) {
+				t := &c11PTx{}
+				if err := json.Unmarshal(js, &t.j); err != nil {
+					return nil, err
+				}
+				t.id = crypto.SHA3Sum256(t.Bytes())
+				return t, nil
+			},
+		})
+	})
+}
+
+func (t *c11PTx) Group() module.TransactionGroup { return module.TransactionGroupNormal }
+func (t *c11PTx) ID() []byte                     { return t.id }
+func (t *c11PTx) Hash() []byte                   { return t.id }
+func (t *c11PTx) From() module.Address           { return state.SystemAddress }
+func (t *c11PTx) To() module.Address             { return state.SystemAddress }
+func (t *c11PTx) Bytes() []byte                  { b, _ := json.Marshal(&t.j); return b }
+func (t *c11PTx) Verify() error                  { return nil }
+func (t *c11PTx) Version() int                   { return module.TransactionVersion3 }
+func (t *c11PTx) ValidateNetwork(nid int) bool   { return true }
+func (t *c11PTx) Timestamp() int64               { return t.j.TimeStamp.Value }
+func (t *c11PTx) Nonce() *big.Int                { return nil }
+func (t *c11PTx) IsSkippable() bool              { return false }
+func (t *c11PTx) Dispose()                       {}
+func (t *c11PTx) ToJSON(version module.JSONVersion) (interface{}, error) {
+	return map[string]interface{}{"type": "c11", "timestamp": &t.j.TimeStamp, "salt": t.j.Salt}, nil
+}
+func (t *c11PTx) PreValidate(wc state.WorldContext, update bool) error { return nil }
+func (t *c11PTx) GetHandler(cm contract.ContractManager) (transaction.Handler, error) {
+	return t, nil
+}
+func (t *c11PTx) Prepare(ctx contract.Context) (state.WorldContext, error) {
+	return ctx.GetFuture([]state.LockRequest{{Lock: state.AccountWriteLock, ID: state.WorldIDStr}}), nil
+}
+func (t *c11PTx) Execute(ctx contract.Context, wcs state.WorldSnapshot, estimate bool) (txresult.Receipt, error) {
+	if t.j.ThMS > 0 {
+		as := ctx.GetAccountState(state.SystemID)
+		if err := scoredb.NewVarDB(as, state.VarTimestampThreshold).Set(t.j.ThMS); err != nil {
+			return nil, err
+		}
+	}
+	r := txresult.NewReceipt(ctx.Database(), ctx.Revision(), t.To())
+	r.SetResult(module.StatusSuccess, big.NewInt(0), big.NewInt(0), nil)
+	return r, nil
+}
+
+type c11Env struct {
+	dir    string
+	dbase  db.Database
+	chain  *test.Chain
+	plt    base.Platform
+	cm     contract.ContractManager
+	tsc    *service.TxTimestampChecker
+	logger log.Logger
+}
+
+func c11NewEnv() *c11Env {
+	dir, err := os.MkdirTemp("", "c11tr")
+	if err != nil {
+		ev.Inconclusive("C11: temp dir: %v", err)
+	}
+	e := &c11Env{dir: dir, dbase: db.NewMapDB(), plt: basic.Platform, tsc: service.NewTimestampChecker(), logger: c11Logger}
+	e.chain, err = test.NewChain(c11quietT{}, gen.WalletFromIndex(1), e.dbase, e.logger, consensus.NewCommitVoteSetFromBytes, `{"accounts":[],"message":"c11"}`)
+	if err != nil {
+		ev.Inconclusive("C11: test.NewChain: %v", err)
+	}
+	e.cm, err = e.plt.NewContractManager(e.dbase, dir+"/contract", e.logger)
+	if err != nil {
+		ev.Inconclusive("C11: contract manager: %v", err)
+	}
+	return e
+}
+
+var c11LocatorTimeouts int32
+
+// waitLocators waits (bounded) until the locator of every finalized transaction is in the database.
+func (e *c11Env) waitLocators(nodes []*c11TNode) bool {
+	bk, err := e.dbase.GetBucket(db.TransactionLocatorByHash)
+	if err != nil {
+		return false
+	}
+	if atomic.LoadInt32(&c11LocatorTimeouts) >= 3 {
+		return false // locators evidently never arrive on this tree; do not wait again
+	}
+	deadline := time.Now().Add(5 * time.Second)
+	for _, n := range nodes {
+		if !n.committed {
+			continue
+		}
+		for _, tx := range n.txs {
+			for {
+				if bs, err := bk.Get(tx.ID()); err == nil && len(bs) > 0 {
+					break
+				}
+				if time.Now().After(deadline) {
+					atomic.AddInt32(&c11LocatorTimeouts, 1)
+					return false
+				}
+				time.Sleep(time.Millisecond)
+			}
+		}
+	}
+	return true
+}
+
+func (e *c11Env) close() {
+	e.chain.Close()
+	_ = os.RemoveAll(e.dir)
+}
+
+func (e *c11Env) initTransition(result []byte) module.Transition {
+	tr, err := service.NewInitTransition(e.dbase, result, nil, e.cm, nil, e.chain, e.logger, e.plt, e.tsc)
+	if err != nil {
+		ev.Inconclusive("C11: NewInitTransition: %v", err)
+	}
+	return tr
+}
+
+type c11cb struct {
+	val chan error
+	exe chan error
+}
+
+func (c *c11cb) OnValidate(tr module.Transition, err error) { c.val <- err }
+func (c *c11cb) OnExecute(tr module.Transition, err error)  { c.exe <- err }
+
+const c11Wait = 60 * time.Second
+
+// c11Exec runs a transition; returns (validation error, execution error, timedOut).
+func c11Exec(tr module.Transition) (error, error, bool) {
+	cb := &c11cb{val: make(chan error, 1), exe: make(chan error, 1)}
+	if _, err := tr.Execute(cb); err != nil {
+		return err, nil, false
+	}
+	select {
+	case err := <-cb.val:
+		if err != nil {
+			return err, nil, false
+		}
+	case <-time.After(c11Wait):
+		return nil, nil, true
+	}
+	select {
+	case err := <-cb.exe:
+		return nil, err, false
+	case <-time.After(c11Wait):
+		return nil, nil, true
+	}
+}
+
+type c11TNode struct {
+	idx       int
+	parent    *c11TNode
+	height    int64
+	T         int64
+	txs       []module.Transaction
+	tr        module.Transition
+	committed bool
+	dead      bool
+	afterRst  bool
+}
+
+func (n *c11TNode) isAncestorOrSelf(o *c11TNode) bool {
+	for p := o; p != nil; p = p.parent {
+		if p == n {
+			return true
+		}
+	}
+	return false
+}
+
+func c11TxName(tx module.Transaction) string {
+	t := tx.(interface{ Timestamp() int64 })
+	return fmt.Sprintf("%x@%d", tx.ID()[:3], t.Timestamp())
+}
+
+func c11Ts(tx module.Transaction) int64 { return tx.(interface{ Timestamp() int64 }).Timestamp() }
+
+// c11RunTransitions executes one generated history through real transitions.
+func c11RunTransitions(rt *rapid.T, rec *ev.Rec, maxOps int) (violation string, desc string, nontrivial bool, labels []string) {
+	lab := map[string]bool{}
+	var d []string
+	finish := func(v string) (string, string, bool, []string) {
+		for l := range lab {
+			labels = append(labels, l)
+		}
+		return v, strings.Join(d, " | "), nontrivial, labels
+	}
+	e := c11NewEnv()
+	defer e.close()
+
+	// threshold: chain default (5 min) or set by the first block (milliseconds granularity)
+	thMS := rapid.SampledFrom([]int64{0, 0, 1, 1, 2, 10}).Draw(rt, "thMS")
+	th := service.ConfigTXTimestampThresholdDefault
+	if thMS != 0 {
+		th = thMS * 1000
+	}
+	t0 := int64(1_700_000_000_000_000) + rapid.Int64Range(0, 1000).Draw(rt, "t0")
+	salt := 0
+	newTx := func(ts int64) module.Transaction {
+		salt++
+		return c11NewPTx(ts, fmt.Sprintf("c11-%d", salt), 0)
+	}
+	root := &c11TNode{tr: e.initTransition(nil)}
+	nodes := []*c11TNode{root}
+	last := root
+	d = append(d, fmt.Sprintf("transitions th=%d t0=%d", th, t0))
+
+	if thMS != 0 {
+		// block 1 carries the threshold change; it is validated under the default threshold and
+		// none of its content is ever repeated
+		n := &c11TNode{idx: 1, parent: root, height: 1, T: t0}
+		n.txs = []module.Transaction{c11NewPTx(t0, "c11-th", thMS)}
+		n.tr = service.NewTransition(root.tr, nil, transaction.NewTransactionListFromSlice(e.dbase, n.txs), common.NewBlockInfo(1, t0), nil, false)
+		ve, xe, to := c11Exec(n.tr)
+		if to {
+			rec.Label("tr-timeout-skipped")
+			return finish("")
+		}
+		if ve != nil || xe != nil {
+			ev.Inconclusive("C11: threshold block failed: %v %v", ve, xe)
+		}
+		nodes = append(nodes, n)
+		last = n
+		root.dead = true // every later block lives under the new threshold
+		d = append(d, fmt.Sprintf("B1<-B0 T=%d [setThreshold %dms]", t0, thMS))
+	}
+
+	nOps := rapid.IntRange(2, maxOps).Draw(rt, "nOps")
+	for op := 0; op < nOps; op++ {
+		var live []*c11TNode
+		for _, n := range nodes {
+			if !n.dead {
+				live = append(live, n)
+			}
+		}
+		k := rapid.IntRange(0, 19).Draw(rt, "op")
+		switch {
+		case k < 13:
+			parent := last
+			if parent.dead || rapid.IntRange(0, 9).Draw(rt, "pickParent") < 3 {
+				parent = live[rapid.IntRange(0, len(live)-1).Draw(rt, "parent")]
+			}
+			T := t0
+			if parent.T != 0 {
+				T = parent.T + c11Delta(rt, th)
+			}
+			n := &c11TNode{idx: len(nodes), parent: parent, height: parent.height + 1, T: T}
+			var path, pathIn, foreign []module.Transaction
+			owner := map[string]*c11TNode{}
+			for p := parent; p != nil; p = p.parent {
+				for _, tx := range p.txs {
+					if transaction.Unwrap(tx).(*c11PTx).j.ThMS != 0 {
+						continue
+					}
+					path = append(path, tx)
+					owner[string(tx.ID())] = p
+					if c11InWindow(T, th, c11Ts(tx)) {
+						pathIn = append(pathIn, tx)
+					}
+				}
+			}
+			for _, o := range nodes {
+				if o.isAncestorOrSelf(parent) {
+					continue
+				}
+				for _, tx := range o.txs {
+					if _, on := owner[string(tx.ID())]; !on && c11InWindow(T, th, c11Ts(tx)) {
+						foreign = append(foreign, tx)
+					}
+				}
+			}
+			plan := rapid.SampledFrom([]string{"clean", "clean", "clean", "clean", "clean",
+				"dupAnc", "dupAnc", "dupAnc", "dupAnc", "dupAnc", "dupAnc", "dupSame", "foreign", "foreign", "oow", "dupAncOow"}).Draw(rt, "plan")
+			cnt := rapid.IntRange(0, 4).Draw(rt, "ntx")
+			if plan != "clean" && cnt == 0 {
+				cnt = 1
+			}
+			special := -1
+			if cnt > 0 {
+				special = rapid.IntRange(0, cnt-1).Draw(rt, "special")
+			}
+			fresh := func(allowOut bool) {
+				ts, kd := c11FreshTs(rt, T, th)
+				if !allowOut && (kd == "expired" || kd == "future") {
+					ts = T + th
+				}
+				n.txs = append(n.txs, newTx(ts))
+			}
+			for i := 0; i < cnt; i++ {
+				kind := "n"
+				if i == special {
+					kind = plan
+				}
+				switch {
+				case kind == "dupAnc" && len(pathIn) > 0:
+					n.txs = append(n.txs, pathIn[rapid.IntRange(0, len(pathIn)-1).Draw(rt, "dupIn")])
+				case kind == "dupAncOow" && len(path) > 0:
+					n.txs = append(n.txs, path[rapid.IntRange(0, len(path)-1).Draw(rt, "dupAny")])
+				case kind == "dupSame" && len(n.txs) > 0:
+					n.txs = append(n.txs, n.txs[rapid.IntRange(0, len(n.txs)-1).Draw(rt, "dupSame")])
+				case kind == "dupSame" && i+1 < cnt:
+					fresh(false)
+					special = i + 1
+				case kind == "foreign" && len(foreign) > 0:
+					n.txs = append(n.txs, foreign[rapid.IntRange(0, len(foreign)-1).Draw(rt, "dupForeign")])
+				case kind == "oow":
+					fresh(true)
+				default:
+					fresh(false)
+				}
+			}
+			nodes = append(nodes, n)
+			var sb []string
+			for _, tx := range n.txs {
+				sb = append(sb, c11TxName(tx))
+			}
+			d = append(d, fmt.Sprintf("B%d<-B%d h=%d T=%d [%s]", n.idx, parent.idx, n.height, T, strings.Join(sb, ",")))
+
+			// model
+			allIn := true
+			dup := ""
+			var classes []string
+			seen := map[string]bool{}
+			for _, tx := range n.txs {
+				if !c11InWindow(T, th, c11Ts(tx)) {
+					allIn = false
+				}
+				id := string(tx.ID())
+				if seen[id] {
+					classes = append(classes, "dup-same-block")
+					if dup == "" {
+						dup = c11TxName(tx) + " repeated in the block"
+					}
+				} else if o, ok := owner[id]; ok {
+					cl := "dup-unfinalized-ancestor"
+					if o.committed {
+						cl = "dup-finalized-ancestor"
+						if o.afterRst {
+							cl = "dup-finalized-ancestor-db-after-restart"
+						}
+					}
+					if c11Ts(tx) == o.T+th {
+						cl += "-at-boundary"
+					}
+					classes = append(classes, cl)
+					if dup == "" {
+						dup = fmt.Sprintf("%s already in B%d(T=%d,finalized=%v)", c11TxName(tx), o.idx, o.T, o.committed)
+					}
+				}
+				seen[id] = true
+			}
+			modelAccepts := allIn && dup == ""
+
+			// code
+			ev.Journal(strings.Join(d, " | "))
+			n.tr = service.NewTransition(parent.tr, nil, transaction.NewTransactionListFromSlice(e.dbase, n.txs), common.NewBlockInfo(n.height, T), nil, false)
+			ve, xe, to := c11Exec(n.tr)
+			if to {
+				rec.Label("tr-timeout-skipped")
+				return finish("")
+			}
+			if allIn && dup != "" {
+				nontrivial = true
+				for _, c := range classes {
+					lab["tr:"+c] = true
+					rec.Label("tr-blocks:" + c)
+				}
+			}
+			if !allIn {
+				lab["tr:block-with-out-of-window-ts"] = true
+			}
+			if ve == nil && !modelAccepts {
+				why := dup
+				if why == "" {
+					why = "a timestamp is outside (T-th,T+th]"
+				}
+				return finish(fmt.Sprintf("transition for B%d (T=%d th=%d) passed validation although %s; history: %s", n.idx, T, th, why, strings.Join(d, " | ")))
+			}
+			if ve != nil && modelAccepts {
+				rec.Label("tr-overreject-not-decided")
+				n.dead, n.txs = true, nil
+				continue
+			}
+			if ve != nil {
+				rec.Label("tr-blocks-rejected")
+				n.dead, n.txs = true, nil
+				continue
+			}
+			if xe != nil {
+				// not a C11 matter; cannot continue on this branch
+				rec.Label("tr-execution-error-skipped")
+				n.dead, n.txs = true, nil
+				continue
+			}
+			rec.Label("tr-blocks-accepted")
+			last = n
+		case k < 18: // finalize a block and everything before it
+			var cand []*c11TNode
+			for _, n := range live {
+				if !n.committed && n.parent != nil {
+					cand = append(cand, n)
+				}
+			}
+			if len(cand) == 0 {
+				continue
+			}
+			n := cand[rapid.IntRange(0, len(cand)-1).Draw(rt, "commit")]
+			var chain []*c11TNode
+			for p := n; p != nil && p.parent != nil && !p.committed; p = p.parent {
+				chain = append([]*c11TNode{p}, chain...)
+			}
+			for _, p := range chain {
+				if err := service.FinalizeTransition(p.tr, module.FinalizeNormalTransaction|module.FinalizePatchTransaction|module.FinalizeResult, false); err != nil {
+					return finish(fmt.Sprintf("FinalizeTransition of B%d failed: %v", p.idx, err))
+				}
+				p.committed = true
+			}
+			for _, o := range nodes {
+				if !n.isAncestorOrSelf(o) {
+					o.dead = true
+				}
+			}
+			if last.dead {
+				last = n
+			}
+			d = append(d, fmt.Sprintf("finalize B%d", n.idx))
+			lab["tr:finalize"] = true
+		default: // restart: new locator manager / init transition on the same database
+			var fin *c11TNode
+			for _, n := range nodes {
+				if n.committed && (fin == nil || n.height > fin.height) {
+					fin = n
+				}
+			}
+			if fin == nil {
+				continue // nothing durable yet; a restart would be a fresh chain
+			}
+			for _, o := range nodes {
+				o.dead = true
+				if o.committed {
+					o.afterRst = true
+				}
+			}
+			// a clean shutdown has written every finalized locator (the flush worker is asynchronous)
+			if !e.waitLocators(nodes) {
+				rec.Label("tr-timeout-skipped")
+				return finish("")
+			}
+			// block.NewManager: init transition on the result before the last finalized block,
+			// re-execute that block as already validated and finalize its normal transactions
+			var res []byte
+			if fin.parent != nil && fin.parent.tr != nil && fin.parent.parent != nil {
+				res = fin.parent.tr.Result()
+			}
+			init := e.initTransition(res)
+			tr := service.NewTransition(init, nil, transaction.NewTransactionListFromSlice(e.dbase, fin.txs), common.NewBlockInfo(fin.height, fin.T), nil, true)
+			ve, xe, to := c11Exec(tr)
+			if to {
+				rec.Label("tr-timeout-skipped")
+				return finish("")
+			}
+			if ve != nil || xe != nil {
+				return finish(fmt.Sprintf("restart: re-execution of finalized B%d failed: %v %v; history: %s", fin.idx, ve, xe, strings.Join(d, " | ")))
+			}
+			if err := service.FinalizeTransition(tr, module.FinalizeNormalTransaction, false); err != nil {
+				return finish(fmt.Sprintf("restart: finalize of B%d failed: %v", fin.idx, err))
+			}
+			fin.tr = tr
+			fin.dead = false
+			last = fin
+			d = append(d, "restart")
+			lab["tr:restart"] = true
+		}
+	}
+	return finish("")
 }
